@@ -648,6 +648,42 @@ def o_der(case):
     return labels
 
 
+def o_key_verify_strict(case):
+    """the strictness of DER decoding as the key API applies it: Key.verify accepts the key's own signature and refuses
+    the same signature with bytes after the sequence or after s inside the sequence"""
+    net = NETS[case["net"]]
+    d, h = case["d"], case["h"].to_bytes(32, "big")
+    key = net.keys.private(d, is_compressed=bool(case["compressed"]))
+    sig = key.sign(h)
+    junk = bytes.fromhex(case["junk"])
+    labels = ["junk=%d" % len(junk)]
+    for name, k in (("private key", key), ("public copy", key.public_copy())):
+        if k.verify(h, sig) is not True:
+            _bad("key:verify-refuses-own-signature", "%s of d=%#x: verify(h, sign(h)) is not True (sig %s)" % (name, d, sig.hex()))
+        got = _strict_decode(sig)
+        if got[0] != "ok":
+            return labels + ["own-signature-not-strict-DER"]        # judged by der_* sub-checks
+        r, s_ = got[1]
+        after = sig + junk
+        body = refenc.der_int(r) + refenc.der_int(s_) + junk
+        inside = b"\x30" + (bytes([len(body)]) if len(body) < 0x80 else b"\x81" + bytes([len(body)])) + body
+        for how, blob in (("after the sequence", after), ("after s inside the sequence", inside)):
+            try:
+                v = k.verify(h, blob)
+            except Exception as ex:     # noqa - a refusal by exception is judged by the totality clauses elsewhere
+                v = "raised %s" % type(ex).__name__
+            if v is True:
+                _bad("key:verify-accepts-trailing-bytes", "%s of d=%#x: verify accepts its signature with %d byte(s) %s: %s" % (
+                    name, d, len(junk), how, blob.hex()))
+    return labels
+
+
+def s_key_verify_strict():
+    return st.fixed_dictionaries({"net": st.sampled_from(NET_CODES), "d": scalars(), "h": st.integers(1, 2**256 - 1),
+                                  "compressed": st.sampled_from([0, 1]),
+                                  "junk": st.one_of(st.sampled_from(["00", "01", "0201", "020100", "3000", "ff"]), st.binary(min_size=1, max_size=4).map(bytes.hex))})
+
+
 def nt_der(case, labels):
     return any(l.endswith("top>=0x80") or l.endswith("top=0x7f") or l.endswith("zero") for l in labels)
 
@@ -806,6 +842,10 @@ SUBCHECKS = [
                   "both modes returns (r,s); with 0-4 junk bytes appended after the sequence, and inside it after s: strict refuses"),
     SubCheck("der_generated", o_der, strategy=s_der, budget=(5000, 300000), nontrivial=nt_der,
              rule="r, s from per-length top-byte classes, n, n/2, p, uniform; junk of 1-4 bytes incl. bytes that look like a third integer"),
+    SubCheck("key_verify_strict", o_key_verify_strict, strategy=s_key_verify_strict, budget=(600, 30000), nontrivial=lambda c, l: True,
+             rule="Key.sign / Key.verify on every network's key class: the key and its public copy accept the key's own signature and "
+                  "refuse it with 1-4 bytes appended after the sequence or after s inside the (re-lengthed) sequence - the strict-decoding "
+                  "clause as the key API applies it"),
     SubCheck("der_blobs", o_der_blob, strategy=s_der_blobs, budget=(5000, 300000),
              nontrivial=lambda c, l: "frame=other" not in l,
              rule="valid encodings with 0-2 byte edits / insertions / deletions, appended junk, cuts, bumped sequence length, and raw "
